@@ -140,10 +140,18 @@ def render_line(m, d):
     """m: dict(time_us, tag, queue, sent, iface, id, name, args)"""
     ms = m['time_us'] // 1000
     frac = m['time_us'] % 1000
+    fs = '%03d' % frac
+    k = d.get('tsdigits', 3)
+    # eighth seeding round: the same time written with another number of digits after the mark (`[2250.5]`, `[2250.5000]`; the tool's
+    # pattern accepts any number of digits and the property speaks of all logs): trailing zeros dropped where there are any, or added
+    if k > 3:
+        fs = fs + '0' * (k - 3)
+    elif k < 3 and fs[k:] == '0' * (3 - k):
+        fs = fs[:k]
     if d['ts'] == 'f':
-        ts = '[%10s]' % ('%d%s%03d' % (ms, d['mark'], frac))
+        ts = '[%10s]' % ('%d%s%s' % (ms, d['mark'], fs))
     else:
-        ts = '[%7d%s%03d]' % (ms, d['mark'], frac)
+        ts = '[%7d%s%s]' % (ms, d['mark'], fs)
     s = ts
     if d['queue'] and m.get('queue') is not None:
         s += ' {%s}' % m['queue']
@@ -262,6 +270,10 @@ def gen_history(rnd, n_conns=None, n_events=40, known_bias=0.8, chatter=0.1, dia
     t_us = rnd.randrange(0, 10 ** 9) * 1000 + rnd.randrange(1000)
     if rnd.random() < 0.15:
         t_us = rnd.choice([0, 0, 1, 999, 1000])      # a log that starts at (or next to) time zero
+    if dialect is None and (t_us % 7 == 0 or t_us in (1, 1000)):
+        # one log in seven writes its times with another number of digits after the mark (decided from the start time, so that the
+        # random sequence of every other choice stays what it was)
+        d = dict(d, tsdigits=[1, 2, 4, 6][(t_us // 7) % 4])
     items = []
     known = sorted(proto.keys())
     burst = rnd.choice([0, 0, 3, 6, 10, 15])       # a start-up burst logged within one clock tick (relative time 0.0)
